@@ -797,6 +797,37 @@ type walker struct {
 	funcsP string // inside NewZlispWithFuncs: name of the table bound to parameter funcs
 	sandboxedCfg bool
 	ctor   string
+	// enumeration of ReplMain over flag assignments (family plans)
+	strSet    map[string]bool // string flags that are non-empty in this assignment
+	consulted map[string]bool // cfg.<Field>s consulted by conditions that decide construction / registration
+	plan      *planRec        // when non-nil: record constructor and top-level setup steps instead of insisting on the sandbox
+}
+
+// planRec: what ReplMain does to make its interpreter under one flag assignment
+type planRec struct {
+	Ctor  string   // NewZlispSandbox / NewZlisp / ...
+	Steps []string // registration-relevant functions ReplMain calls on it, in order
+}
+
+func cfgFieldsIn(e ast.Expr) []string {
+	var out []string
+	ast.Inspect(e, func(n ast.Node) bool {
+		if s, ok := n.(*ast.SelectorExpr); ok {
+			if id, ok := s.X.(*ast.Ident); ok && id.Name == "cfg" {
+				out = append(out, s.Sel.Name)
+			}
+		}
+		return true
+	})
+	return out
+}
+
+func (w *walker) note(e ast.Expr) {
+	if w.consulted != nil {
+		for _, f := range cfgFieldsIn(e) {
+			w.consulted[f] = true
+		}
+	}
 }
 
 func (w *walker) add(b binding) { w.cfg.Bindings = append(w.cfg.Bindings, b) }
@@ -866,7 +897,8 @@ func (w *walker) condValue(e ast.Expr) (bool, bool) {
 			if id, ok := s.X.(*ast.Ident); ok && id.Name == "cfg" {
 				if lit, ok := strLit(x.Y); ok && lit == "" {
 					if _, isStr := stringFlags[s.Sel.Name]; isStr {
-						return x.Op == token.EQL, x.Op == token.EQL || x.Op == token.NEQ
+						empty := !w.strSet[s.Sel.Name]
+						return (x.Op == token.EQL) == empty, x.Op == token.EQL || x.Op == token.NEQ
 					}
 				}
 			}
@@ -918,6 +950,7 @@ func (w *walker) stmt(s ast.Stmt, where string) {
 			return
 		}
 		if v, known := w.condValue(x.Cond); known {
+			w.note(x.Cond)
 			if v {
 				w.stmts(x.Body.List, where)
 			} else if x.Else != nil {
@@ -1174,6 +1207,9 @@ func (w *walker) call(c *ast.CallExpr, where string) {
 		}
 		for _, k := range targets {
 			if w.t.setup[k] {
+				if w.plan != nil && where == "ReplMain" {
+					w.plan.Steps = append(w.plan.Steps, k)
+				}
 				w.walkFunc(k)
 			}
 		}
@@ -1201,6 +1237,9 @@ func (w *walker) call(c *ast.CallExpr, where string) {
 			return
 		}
 		if w.t.setup[f.Name] {
+			if w.plan != nil && where == "ReplMain" {
+				w.plan.Steps = append(w.plan.Steps, f.Name)
+			}
 			w.walkFunc(f.Name)
 		}
 	}
@@ -1470,8 +1509,12 @@ func main() {
 			}
 		}
 	}
-	if t.flag != "" {
-		// every function that makes another interpreter value (new(Zlisp), Zlisp{...}) must copy the flag
+	familyCopies := map[string]bool{"Zlisp.Duplicate": false, "Zlisp.Clone": false}
+	famMakers := map[string][]string{} // Duplicate / Clone -> the functions (itself, helpers it calls) that make the new interpreter value
+	{
+		// every function that makes another interpreter value (new(Zlisp), Zlisp{...}) must copy the flag; for Duplicate and
+		// Clone (and the helpers they call to make the value) the answer goes into the family tables instead of failing here
+		makesM, copiesM := map[string]bool{}, map[string]bool{}
 		for k, nd := range p.nodes {
 			makes, copies := false, false
 			for _, b := range nd.bodies {
@@ -1487,7 +1530,7 @@ func main() {
 						}
 					case *ast.AssignStmt:
 						for i, l := range x.Lhs {
-							if endsInField(l, t.flag) && i < len(x.Rhs) && endsInField(x.Rhs[i], t.flag) {
+							if t.flag != "" && endsInField(l, t.flag) && i < len(x.Rhs) && endsInField(x.Rhs[i], t.flag) {
 								copies = true
 							}
 						}
@@ -1495,8 +1538,52 @@ func main() {
 					return true
 				})
 			}
-			if makes && !copies && k != "NewZlispWithFuncs" {
-				die("%s makes a new interpreter value without copying the sandbox flag %s", k, t.flag)
+			makesM[k], copiesM[k] = makes, copies
+		}
+		exempt := map[string]bool{"NewZlispWithFuncs": true}
+		for _, fam := range []string{"Zlisp.Duplicate", "Zlisp.Clone"} {
+			nd, ok := p.nodes[fam]
+			if !ok {
+				die("family: %s not found", fam)
+			}
+			var makers []string
+			if makesM[fam] {
+				makers = append(makers, fam)
+			}
+			var cs []string
+			for c := range nd.callees {
+				cs = append(cs, c)
+			}
+			sort.Strings(cs)
+			for _, c := range cs {
+				if makesM[c] && c != fam && c != "NewZlispWithFuncs" {
+					makers = append(makers, c)
+				}
+			}
+			if len(makers) == 0 {
+				die("%s no longer makes a new interpreter value (directly or through a helper): shape not understood", fam)
+			}
+			copied := copiesM[fam]
+			if !copied {
+				copied = true
+				for _, m := range makers {
+					if !copiesM[m] {
+						copied = false
+					}
+				}
+			}
+			for _, m := range makers {
+				exempt[m] = true
+			}
+			exempt[fam] = true
+			familyCopies[fam] = copied && t.flag != ""
+			famMakers[fam] = makers
+		}
+		if t.flag != "" {
+			for k := range p.nodes {
+				if makesM[k] && !copiesM[k] && !exempt[k] {
+					die("%s makes a new interpreter value without copying the sandbox flag %s", k, t.flag)
+				}
 			}
 		}
 	}
@@ -1669,6 +1756,168 @@ func main() {
 		w.walkReplMain()
 	})
 
+	// ---- the interpreter family (Model/Family.v) ----
+	// what one setup function registers, by value of the interpreter's sandbox flag
+	regsOf := func(fn string, sb bool) *config {
+		c := &config{Bindings: []binding{}, ScriptMacros: []scriptMacro{}, DynSources: []string{}}
+		w := &walker{t: t, cfg: c, strs: map[string]string{}, sandboxedCfg: sb}
+		w.walkFunc(fn)
+		return c
+	}
+	ctorOf := func(name string, sb bool) *config {
+		c := &config{Bindings: []binding{}, ScriptMacros: []scriptMacro{}, DynSources: []string{}}
+		w := &walker{t: t, cfg: c, strs: map[string]string{}, sandboxedCfg: sb}
+		ctor(w, name)
+		return c
+	}
+	for _, k := range []string{"Zlisp.StandardSetup", "Zlisp.ImportDemoData", "Zlisp.Duplicate", "Zlisp.Clone"} {
+		if _, ok := p.nodes[k]; !ok {
+			die("family: %s not found", k)
+		}
+	}
+	famRegs := map[string]*config{
+		"ctor_sandbox": ctorOf("NewZlispSandbox", true), "ctor_full": ctorOf("NewZlisp", false),
+		"std_regs_sb": regsOf("Zlisp.StandardSetup", true), "std_regs_open": regsOf("Zlisp.StandardSetup", false),
+		"demo_regs_sb": regsOf("Zlisp.ImportDemoData", true), "demo_regs_open": regsOf("Zlisp.ImportDemoData", false),
+	}
+	// Duplicate / Clone share the binding tables with the parent: X.builtins = Y.builtins, X.macros = Y.macros and the
+	// parent's global scope (linearstack.elements[0] pushed, or the scope stack cloned)
+	familyShares := map[string]bool{}
+	for _, k := range []string{"Zlisp.Duplicate", "Zlisp.Clone"} {
+		got := map[string]bool{}
+		var famBodies []ast.Node
+		for _, m := range append([]string{k}, famMakers[k]...) {
+			famBodies = append(famBodies, p.nodes[m].bodies...)
+		}
+		for _, b := range famBodies {
+			ast.Inspect(b, func(n ast.Node) bool {
+				switch x := n.(type) {
+				case *ast.AssignStmt:
+					for i, l := range x.Lhs {
+						for _, f := range []string{"builtins", "macros"} {
+							if endsInField(l, f) && i < len(x.Rhs) && endsInField(x.Rhs[i], f) {
+								got[f] = true
+							}
+						}
+					}
+				case *ast.CallExpr:
+					if sel, ok := x.Fun.(*ast.SelectorExpr); ok && sel.Sel.Name == "Push" && len(x.Args) == 1 {
+						if ix, ok := x.Args[0].(*ast.IndexExpr); ok && endsInField(ix.X, "elements") {
+							if lit, ok := ix.Index.(*ast.BasicLit); ok && lit.Value == "0" {
+								got["global"] = true
+							}
+						}
+					}
+				}
+				return true
+			})
+		}
+		familyShares[k] = got["builtins"] && got["macros"] && got["global"]
+	}
+	// ReplMain under EVERY assignment of the configuration flags its construction / registration depends on
+	type planRow struct {
+		Flags []bool   `json:"flags"`
+		Ctor  string   `json:"ctor"`
+		Steps []string `json:"steps"`
+		N     int      `json:"bindings"`
+	}
+	var planFlags []string
+	var planRows []planRow
+	{
+		df := p.nodes["ZlispConfig.DefineFlags"]
+		isBool := map[string]bool{}
+		ast.Inspect(df.decl.Body, func(n ast.Node) bool {
+			if c, ok := n.(*ast.CallExpr); ok && len(c.Args) >= 3 {
+				if s, ok := c.Fun.(*ast.SelectorExpr); ok && s.Sel.Name == "BoolVar" {
+					if u, ok := c.Args[0].(*ast.UnaryExpr); ok {
+						if fs, ok := u.X.(*ast.SelectorExpr); ok {
+							isBool[fs.Sel.Name] = true
+						}
+					}
+				}
+			}
+			return true
+		})
+		relevant := map[string]bool{"Sandboxed": true}
+		for round := 0; ; round++ {
+			if round > 6 {
+				die("ReplMain: the set of construction-relevant flags does not stabilise")
+			}
+			planFlags = planFlags[:0]
+			for f := range relevant {
+				planFlags = append(planFlags, f)
+			}
+			sort.Strings(planFlags)
+			if len(planFlags) > 8 {
+				die("ReplMain: %d flags decide construction / registration: %v", len(planFlags), planFlags)
+			}
+			planRows = planRows[:0]
+			grew := false
+			for m := 0; m < 1<<uint(len(planFlags)); m++ {
+				fl := map[string]bool{}
+				for f := range isBool {
+					fl[f] = false
+				}
+				ss := map[string]bool{}
+				var vec []bool
+				for i, f := range planFlags {
+					v := m&(1<<uint(i)) != 0
+					vec = append(vec, v)
+					if isBool[f] {
+						fl[f] = v
+					} else {
+						ss[f] = v
+					}
+				}
+				c := &config{Bindings: []binding{}, ScriptMacros: []scriptMacro{}, DynSources: []string{}}
+				w := &walker{t: t, cfg: c, strs: map[string]string{}, flags: fl, strSet: ss, consulted: map[string]bool{}, plan: &planRec{}}
+				w.walkReplMain()
+				for f := range w.consulted {
+					if !relevant[f] {
+						relevant[f] = true
+						grew = true
+					}
+				}
+				planRows = append(planRows, planRow{vec, w.plan.Ctor, append([]string{}, w.plan.Steps...), len(c.Bindings)})
+				// the composition the family model uses must be what the walk produced
+				want := []binding{}
+				switch w.plan.Ctor {
+				case "NewZlispSandbox":
+					want = append(want, famRegs["ctor_sandbox"].Bindings...)
+				case "NewZlisp":
+					want = append(want, famRegs["ctor_full"].Bindings...)
+				default:
+					die("ReplMain constructs its interpreter with %s: not a constructor the family model knows", w.plan.Ctor)
+				}
+				sfx := "_open"
+				if w.plan.Ctor == "NewZlispSandbox" {
+					sfx = "_sb"
+				}
+				for _, st := range w.plan.Steps {
+					switch st {
+					case "Zlisp.StandardSetup":
+						want = append(want, famRegs["std_regs"+sfx].Bindings...)
+					case "Zlisp.ImportDemoData":
+						want = append(want, famRegs["demo_regs"+sfx].Bindings...)
+					default:
+						die("ReplMain calls the registration-relevant function %s: not a step the family model knows", st)
+					}
+				}
+				if len(want) != len(c.Bindings) {
+					die("ReplMain under %v=%v: %d bindings walked, %d composed from constructor + steps", planFlags, vec, len(c.Bindings), len(want))
+				}
+				for i := range want {
+					if want[i] != c.Bindings[i] {
+						die("ReplMain under %v=%v: binding %d differs (%v vs %v)", planFlags, vec, i, c.Bindings[i], want[i])
+					}
+				}
+			}
+			if !grew {
+				break
+			}
+		}
+	}
+
 	// everything any table binds + every Add* literal name anywhere (candidate names for the harness)
 	allNames := map[string]bool{}
 	for _, es := range t.tables {
@@ -1719,6 +1968,13 @@ func main() {
 	// function identifiers the tables use
 	used := map[string]bool{}
 	for _, c := range cfgs {
+		for _, b := range c.Bindings {
+			if b.Fn != "" {
+				used[b.Fn] = true
+			}
+		}
+	}
+	for _, c := range famRegs {
 		for _, b := range c.Bindings {
 			if b.Fn != "" {
 				used[b.Fn] = true
@@ -1870,6 +2126,52 @@ func main() {
 		w("].\n")
 		w("Definition dyn_sources_%s : list string := %s.\n\n", name, coqStrList(c.DynSources))
 	}
+	w("(* ---- the interpreter family (Model/Family.v) ---- *)\n")
+	for _, name := range []string{"ctor_sandbox", "ctor_full", "std_regs_sb", "std_regs_open", "demo_regs_sb", "demo_regs_open"} {
+		c := famRegs[name]
+		w("Definition %s : list (string * bkind * string) := [\n", name)
+		for i, b := range c.Bindings {
+			sep := ";"
+			if i == len(c.Bindings)-1 {
+				sep = ""
+			}
+			w("  (%s, %s, %s)%s\n", coqStr(b.Name), kindCtor[b.Kind], coqStr(b.Fn), sep)
+		}
+		w("].\n")
+		w("Definition %s_macros : list (string * list string) := [\n", name)
+		for i, m := range c.ScriptMacros {
+			sep := ";"
+			if i == len(c.ScriptMacros)-1 {
+				sep = ""
+			}
+			w("  (%s, %s)%s\n", coqStr(m.Name), coqStrList(m.Mentions), sep)
+		}
+		w("].\n\n")
+	}
+	coqBool := func(b bool) string {
+		if b {
+			return "true"
+		}
+		return "false"
+	}
+	w("(* environment.go Duplicate / Clone: is the sandbox flag copied from the parent; are env.builtins, env.macros and the global scope shared with it *)\n")
+	w("Definition duplicate_copies_flag : bool := %s.\nDefinition clone_copies_flag : bool := %s.\n", coqBool(familyCopies["Zlisp.Duplicate"]), coqBool(familyCopies["Zlisp.Clone"]))
+	w("Definition duplicate_shares_tables : bool := %s.\nDefinition clone_shares_tables : bool := %s.\n\n", coqBool(familyShares["Zlisp.Duplicate"]), coqBool(familyShares["Zlisp.Clone"]))
+	w("(* repl.go ReplMain under every assignment of the configuration flags that decide construction / registration:\n   (values of replmain_flags, (constructor is NewZlispSandbox, registration-relevant functions called on the interpreter in order)) *)\n")
+	w("Definition replmain_flags : list string := %s.\n", coqStrList(planFlags))
+	w("Definition replmain_plans : list (list bool * (bool * list string)) := [\n")
+	for i, r := range planRows {
+		var vs []string
+		for _, v := range r.Flags {
+			vs = append(vs, coqBool(v))
+		}
+		sep := ";"
+		if i == len(planRows)-1 {
+			sep = ""
+		}
+		w("  ([%s], (%s, %s))%s\n", strings.Join(vs, "; "), coqBool(r.Ctor == "NewZlispSandbox"), coqStrList(r.Steps), sep)
+	}
+	w("].\n")
 	if err := os.WriteFile(*outPath, []byte(sb.String()), 0644); err != nil {
 		die("%v", err)
 	}
@@ -1918,6 +2220,7 @@ func main() {
 	js, _ := json.MarshalIndent(map[string]interface{}{
 		"special_forms": sfj, "special_form_sites": specials, "all_names": names, "configs": cfgs, "effects": effJ, "effects_sandboxed": effSJ, "paths": pathJ,
 		"sandbox_flag": t.flag, "guarded_functions": guardedFns,
+		"family": map[string]interface{}{"regs": famRegs, "copies_flag": familyCopies, "shares_tables": familyShares, "replmain_flags": planFlags, "replmain_plans": planRows},
 		"implicit": implicit, "vm_core": vm, "tables": tablesJ, "unresolved_dynamic_calls": dyn, "functions_analysed": len(p.nodes),
 	}, "", " ")
 	if err := os.WriteFile(jp, js, 0644); err != nil {
@@ -1938,6 +2241,9 @@ func (w *walker) walkReplMain() {
 		// if cfg.Sandboxed { env = NewZlispSandbox() } else { env = NewZlisp() }
 		if is, ok := s.(*ast.IfStmt); ok {
 			if v, known := w.condValue(is.Cond); known {
+				if w.containsSetup(is) {
+					w.note(is.Cond)
+				}
 				var body []ast.Stmt
 				if v {
 					body = is.Body.List
@@ -1952,6 +2258,23 @@ func (w *walker) walkReplMain() {
 					if as, ok := st.(*ast.AssignStmt); ok && len(as.Rhs) == 1 {
 						if c, ok := as.Rhs[0].(*ast.CallExpr); ok {
 							if id, ok := c.Fun.(*ast.Ident); ok && strings.HasPrefix(id.Name, "NewZlisp") {
+								w.note(is.Cond)
+								if w.plan != nil {
+									// enumeration over flag assignments: record what is constructed
+									if w.plan.Ctor != "" {
+										die("ReplMain constructs two interpreters (%s, %s)", w.plan.Ctor, id.Name)
+									}
+									w.plan.Ctor = id.Name
+									cn, ok := w.t.p.nodes[id.Name]
+									if !ok || cn.decl.Body == nil || len(c.Args) != 0 {
+										die("ReplMain: constructor %s not understood", id.Name)
+									}
+									sawCtor = true
+									w.ctor = id.Name
+									w.sandboxedCfg = id.Name == "NewZlispSandbox"
+									w.stmts(cn.decl.Body.List, id.Name)
+									continue
+								}
 								if id.Name != "NewZlispSandbox" {
 									die("ReplMain under -sandbox constructs the interpreter with %s", id.Name)
 								}
@@ -1961,6 +2284,9 @@ func (w *walker) walkReplMain() {
 								continue
 							}
 						}
+					}
+					if w.containsSetup(st) {
+						w.note(is.Cond)
 					}
 					w.stmt(st, "ReplMain")
 				}
